@@ -24,7 +24,34 @@ var junkNumbers = []string{"NaN", "nan", "Inf", "-Inf", "+inf", "1e999", "-1e999
 func corrupt(r *rand.Rand, text string) string {
 	lines := strings.Split(text, "\n")
 	pick := func() int { return r.Intn(len(lines)) }
-	switch r.Intn(22) {
+	switch r.Intn(23) {
+	case 22: // odd category paths: trailing, leading or doubled separators in an entry or heading name
+		for try := 0; try < 10; try++ {
+			i := pick()
+			k := strings.Index(lines[i], ":")
+			if k <= 0 {
+				continue
+			}
+			name, rest := lines[i][:k], lines[i][k:]
+			switch r.Intn(5) {
+			case 0:
+				name += "/"
+			case 1:
+				name = strings.Replace(name, "/", "//", 1)
+			case 2:
+				t := strings.TrimLeft(name, " \t-")
+				name = name[:len(name)-len(t)] + "/" + t
+			case 3:
+				name += "//"
+			case 4:
+				name = strings.Repeat("deep/", 3+r.Intn(12)) + strings.TrimLeft(name, " \t-")
+				if lines[i][0] == ' ' {
+					name = "  " + name
+				}
+			}
+			lines[i] = name + rest
+			break
+		}
 	case 0: // truncate at any byte
 		if len(text) > 0 {
 			return text[:r.Intn(len(text))]
@@ -176,7 +203,7 @@ func crashSite(stack string) string {
 }
 
 func runC08(c *core.Ctx) {
-	c.SetRule("cases: grammar-aware corruptions (22 operators: truncation at any byte, deleted/duplicated/shuffled lines, junk/NaN/Inf/overflow/hex numbers, stray separators, NUL/invalid UTF-8/control bytes, CR-only, BOM+CRLF, non-date headings, empty/comment-only, 70 kB line, self/mutual recursion, over-deep chains, raw bytes, structured soup, broken indentation, name-less/value-less entries, repeated headings), 1-3 stacked per file, of generated valid files and of the repository examples, in the log, the book or both x 60 command/flag shapes x 38 global-flag variations (bad periods, depths, date formats, today, config, missing/directory files). Oracle: no panic/fatal error/signal (recovered panic with stack in the in-process back-end, confirmed in a fresh process), non-zero exit only with a message, termination (watchdog + isolated re-run). Non-trivial = run whose input differs from a valid file or whose flags are malformed; distinct = hash(files, argv).")
+	c.SetRule("cases: grammar-aware corruptions (23 operators: odd category paths with trailing/leading/doubled separators, truncation at any byte, deleted/duplicated/shuffled lines, junk/NaN/Inf/overflow/hex numbers, stray separators, NUL/invalid UTF-8/control bytes, CR-only, BOM+CRLF, non-date headings, empty/comment-only, 70 kB line, self/mutual recursion, over-deep chains, raw bytes, structured soup, broken indentation, name-less/value-less entries, repeated headings), 1-3 stacked per file, of generated valid files and of the repository examples, in the log, the book or both x 60 command/flag shapes x 38 global-flag variations (bad periods, depths, date formats, today, config, missing/directory files). Oracle: no panic/fatal error/signal (recovered panic with stack in the in-process back-end, confirmed in a fresh process), non-zero exit only with a message, termination (watchdog + isolated re-run). Non-trivial = run whose input differs from a valid file or whose flags are malformed; distinct = hash(files, argv).")
 	c.Assume("a crash seen in the in-process back-end is reported only if it reproduces in a fresh process of the real binary (the CLI library keeps package-level state between in-process runs)")
 	pool := newPool(c, c.Procs)
 	if pool == nil {
